@@ -594,6 +594,78 @@ theorem setupConfig_fixed_point (c c' : Cfg) (h : setupConfig c = .ok c') : setu
 
 example : setupConfig { good with ensEngines := none, seed := none } = .ok good := by decide
 
+
+/-! ### both entry branches (fresh start and restart) validate -/
+
+/-- **`setup_config` validates on both branches.** Whatever configuration `setup_config`
+    returns — from a fresh input file or from a restart file with a `[current]` table — is the
+    normalised input, has passed `check_config`, and is therefore `Valid`. -/
+theorem setup_config_validates_both_branches (c c' : Cfg) (r : Option Restart)
+    (h : setupFile c r = .ok (some c')) :
+    c' = normalise c ∧ check c' = .ok () ∧ Valid c' ∧ EnginesCover c' := by
+  have tail : ∀ c'', (match setupConfig c with
+      | .error e => (Except.error e : Except Err (Option Cfg))
+      | .ok c1 => .ok (some c1)) = .ok (some c'') →
+      c'' = normalise c ∧ check c'' = .ok () ∧ Valid c'' ∧ EnginesCover c'' := by
+    intro c'' h
+    cases hs : setupConfig c with
+    | error e => simp [hs] at h
+    | ok c1 =>
+      simp only [hs, Except.ok.injEq, Option.some.injEq] at h
+      subst h
+      obtain ⟨h1, h2, h3⟩ := setup_accept_sound c c1 hs
+      refine ⟨h1, ?_, h2, h3⟩
+      unfold setupConfig at hs
+      cases hc : check (normalise c) with
+      | error e => simp [hc] at hs
+      | ok u => cases u; rw [h1]; exact hc
+  unfold setupFile at h
+  cases r with
+  | none => exact tail c' h
+  | some cur =>
+    simp only at h
+    cases hf : cur.finished with
+    | true => simp [hf] at h
+    | false =>
+      cases hp : cur.pathsPresent with
+      | false => simp [hf, hp] at h
+      | true =>
+        simp only [hf, hp, Bool.not_true, Bool.false_eq_true, if_false] at h
+        exact tail c' h
+
+/-- **Invalid configurations are rejected on both branches.** If the normalised configuration
+    is invalid, `setup_config` never returns it: it raises a TOMLConfigError, or (restart
+    branch only) stops with `None` before anything starts. -/
+theorem setup_invalid_rejected_both_branches (c : Cfg) (r : Option Restart)
+    (hinv : ¬ Valid (normalise c)) :
+    setupFile c r = .error .config ∨ (r ≠ none ∧ setupFile c r = .ok none) := by
+  have hs := setup_invalid_rejected c hinv
+  unfold setupFile
+  cases r with
+  | none => left; simp [hs]
+  | some cur =>
+    cases hf : cur.finished with
+    | true => right; simp [hf]
+    | false =>
+      cases hp : cur.pathsPresent with
+      | false => right; simp [hf, hp]
+      | true => left; simp [hs, hf, hp]
+
+/-- a restart that goes on (steps left, paths on disk) rejects an invalid configuration with a
+    TOMLConfigError exactly like a fresh start -/
+theorem restart_invalid_rejected (c : Cfg) (cur : Restart) (hinv : ¬ Valid (normalise c))
+    (hgo : cur.finished = false) (hp : cur.pathsPresent = true) :
+    setupFile c (some cur) = .error .config := by
+  unfold setupFile
+  simp [setup_invalid_rejected c hinv, hgo, hp]
+
+example : setupFile capBelowWf (some { cstep := 3, restartedFrom := some 0, steps := 10, pathsPresent := true })
+      = .error .config ∧
+    setupFile good (some { cstep := 3, restartedFrom := some 0, steps := 10, pathsPresent := true })
+      = .ok (some good) ∧
+    setupFile capBelowWf (some { cstep := 10, restartedFrom := some 10, steps := 10, pathsPresent := true })
+      = .ok none := by decide
+
 /-! ### accepted ⇒ the ensembles can be created -/
 
 theorem mkEns_ok (b : Bool) : ∀ (ei : List (Option Rat × Rat × Rat)) (mv : List Bool) (i : Nat),
